@@ -1246,3 +1246,77 @@ func checkVectorShiftImmediateMasked(c *core.Ctx) {
 		c.Discharge("R05.8", "amd64 vector shifts take no run-time-derived immediate count", 0, "no packed shift with an immediate operand in the vector-shift lowerings")
 	}
 }
+
+// hostBodyCall recognises the call of a Go host function's body: `f.Call(…, stack)` on an api.GoFunction /
+// api.GoModuleFunction, or a helper that is handed such a function together with the stack (one level). It returns the
+// index of the stack argument (-1 if there is none).
+func hostBodyCall(info *types.Info, call *ast.CallExpr) (bool, int) {
+	isHostFn := func(t types.Type) bool {
+		if t == nil {
+			return false
+		}
+		s := t.String()
+		return strings.HasSuffix(s, "api.GoFunction") || strings.HasSuffix(s, "api.GoModuleFunction")
+	}
+	if se, ok := call.Fun.(*ast.SelectorExpr); ok && se.Sel.Name == "Call" && isHostFn(info.TypeOf(se.X)) {
+		return true, len(call.Args) - 1
+	}
+	handed := false
+	stack := -1
+	for i, a := range call.Args {
+		t := info.TypeOf(a)
+		if isHostFn(t) {
+			handed = true
+		}
+		if t != nil {
+			if sl, ok := t.Underlying().(*types.Slice); ok && basicKind(sl.Elem()) == types.Uint64 {
+				stack = i
+			}
+		}
+	}
+	if handed {
+		if f := core.Callee(info, call); f != nil {
+			return true, stack
+		}
+	}
+	return false, -1
+}
+
+// exprMentions reports whether the expression mentions a selector/identifier called name, directly or through a local of
+// the function body that is bound (`x := …`) to an expression mentioning it (depth 3).
+func exprMentions(info *types.Info, body ast.Node, e ast.Node, name string) bool {
+	localDef := map[types.Object]ast.Expr{}
+	if body != nil {
+		ast.Inspect(body, func(n ast.Node) bool {
+			if as, ok := n.(*ast.AssignStmt); ok && as.Tok == token.DEFINE && len(as.Lhs) == len(as.Rhs) {
+				for i, l := range as.Lhs {
+					if id, ok := l.(*ast.Ident); ok && info.Defs[id] != nil {
+						localDef[info.Defs[id]] = as.Rhs[i]
+					}
+				}
+			}
+			return true
+		})
+	}
+	var walk func(n ast.Node, d int) bool
+	walk = func(n ast.Node, d int) bool {
+		found := false
+		ast.Inspect(n, func(x ast.Node) bool {
+			switch y := x.(type) {
+			case *ast.SelectorExpr:
+				if y.Sel.Name == name {
+					found = true
+				}
+			case *ast.Ident:
+				if y.Name == name {
+					found = true
+				} else if def, ok := localDef[info.Uses[y]]; ok && d < 3 && walk(def, d+1) {
+					found = true
+				}
+			}
+			return !found
+		})
+		return found
+	}
+	return walk(e, 0)
+}
